@@ -65,7 +65,7 @@ func init() {
 			"CaptureTxStart/CaptureTxEnd are issued by the harness identically on both sides (upstream issues them from the state transition, outside the VM)",
 		},
 		Cases: func(seed uint64, tier string) []Case {
-			ns, nt, nb := 1200, 60, 60
+			ns, nt, nb := 700, 60, 20
 			if !quick(tier) {
 				ns, nt, nb = 40000, 1500, 1200
 			}
@@ -81,11 +81,15 @@ func init() {
 			for i := 0; i < nb; i++ {
 				cs = append(cs, Case{Kind: "balance", Seed: h.Mix(seed, 0xC18B, uint64(i))})
 			}
+			// call trees with logs inside frames whose ancestors fail, traced by the log / call-structure sensitive tracers
+			for i := 0; i < nt; i++ {
+				cs = append(cs, Case{Kind: "ttree", Seed: h.Mix(seed, 0xC18C, uint64(i))})
+			}
 			return cs
 		},
 		Run: runC18,
 		Floors: func(tier string) map[string]int64 {
-			return map[string]int64{"steps_compared": 50000, "tracer_pairs": 600, "balance_runs": 200}
+			return map[string]int64{"steps_compared": 50000, "tracer_pairs": 600, "balance_runs": 150}
 		},
 	})
 }
@@ -261,6 +265,36 @@ func runC18(c Case, tier string) (res CaseResult) {
 		res.Shape("tracer", k.name, k.cfg, shapeOf(fs.L))
 	case "balance":
 		runC18Balance(c, &res)
+	case "ttree":
+		r := h.NewRNG(c.Seed)
+		sc := genScenario(r, scenOpts{FailPct: 40, ValuePct: 30, MinFork: h.Byzantium, MaxFork: h.Shanghai, MaxNodes: 9})
+		dc := DualCase{World: sc.World, Env: h.EnvSpec{Fork: sc.Fork}, Tx: sc.Tx, Desc: sc.desc()}
+		for ki, k := range pairedTracers {
+			if k.name != "callTracer" && k.name != "flatCallTracer" && k.name != "prestateTracer" && k.name != "muxTracer" && k.name != "4byteTracer" {
+				continue
+			}
+			fo, ro, err := runTracerPair(dc, k)
+			if err != nil {
+				res.Fail(Key("tracer-ctor", k.name), err.Error())
+				continue
+			}
+			res.Count("tracer_pairs", 1)
+			res.Count("tree_tracer_pairs", 1)
+			res.Evals++
+			if fo != ro {
+				i := 0
+				for i < len(fo) && i < len(ro) && fo[i] == ro[i] {
+					i++
+				}
+				lo := i - 80
+				if lo < 0 {
+					lo = 0
+				}
+				res.Fail(Key("tracer-output", k.name, "tree"), fmt.Sprintf("%s %s output differs from upstream original on a call tree", k.name, k.cfg),
+					dc.Desc, fmt.Sprintf("first difference at byte %d", i), "fork: ..."+clip(fo[lo:], 400), "ref:  ..."+clip(ro[lo:], 400))
+			}
+			res.Shape("ttree", ki, sc.desc())
+		}
 	}
 	return
 }
